@@ -59,12 +59,14 @@ KeepsTwo   == {{}, {<<"blk", "q">>, <<"cmp", "q">>, <<"cmp", "p">>}}
 KeepsFull  == {{}, {<<"cmp", "p">>}, {<<"cmp", "q">>}, {<<"blk", "p">>}, {<<"blk", "q">>, <<"cmp", "q">>},
                {<<"asm", "p">>, <<"blk", "p">>, <<"cmp", "p">>}, {<<"asm", "q">>, <<"cmp", "p">>, <<"cmp", "q">>}}
 ActsAll    == {"Enter", "Exit", "Assign", "AssignRO", "SetCache", "SetGrid", "DeepCopy", "Pickle", "MakeReadOnly",
-               "CallRO", "WriteDb", "LoadDb", "LoadDbRO", "ReadGrid"}
+               "CallRO", "WriteDb", "LoadDb", "LoadDbRO", "ReadGrid", "SetHeight", "SetDFlag", "FreezeInScope"}
 ActsRO     == {"MakeReadOnly", "AssignRO", "CallRO", "DeepCopy", "Assign"}
 ActsDb     == {"WriteDb", "LoadDb", "LoadDbRO", "DeepCopy", "Pickle", "Assign", "AssignRO"}
 ActsDbR    == {"WriteDb", "LoadDb", "LoadDbRO", "DeepCopy"}
 ActsParams == {"Enter", "Exit", "Assign"}
-ActsGrid   == {"Enter", "Exit", "SetGrid", "SetCache", "ReadGrid"}
+ActsGrid   == {"Enter", "Exit", "SetGrid", "SetCache", "ReadGrid", "SetHeight", "SetDFlag"}
+ActsGridQ  == {"Enter", "Exit", "SetGrid", "ReadGrid", "SetHeight", "SetDFlag"}
+ActsFreeze == {"Enter", "Exit", "Assign", "AssignRO", "MakeReadOnly", "FreezeInScope"}
 ActsLink   == {"Enter", "Exit", "Assign", "DeepCopy", "Pickle"}
 ActsLinkQ  == {"Enter", "Exit", "Assign", "DeepCopy"}
 ActsAsBuilt == {"Enter", "Exit", "SetGrid", "Pickle"}
@@ -72,7 +74,8 @@ ActsCopy   == {"Enter", "Exit", "Assign", "AssignRO", "DeepCopy", "Pickle", "Mak
 
 Bound == TLCGet("level") <= MaxLevel
 \* the snapshots inside the frames are determined by the backups (BackupsAreSnapshots) and never read by Next
-View  == <<tree, pvars, cvars, gvars, [i \in 1..Len(frames) |-> <<frames[i].root, frames[i].keep>>], ro, svars, bad>>
+\* -- except the snapshot of dflag, which the mechanism does not back up and Exit (statement's view) reads
+View  == <<tree, pvars, cvars, gvars, [i \in 1..Len(frames) |-> <<frames[i].root, frames[i].keep, frames[i].sdflag>>], ro, svars, bad>>
 \* database family on the real reactor: parameter values of loaded objects are property C04's business
 ObsDb == [k \in {"parent", "cls", "sameSerialAs", "ro", "err"} |-> Obs[k]]
 VarsDb == [parent |-> Vars.parent, ro |-> Vars.ro, serial |-> Vars.serial, next |-> Vars.next, ident |-> Vars.ident,
